@@ -167,7 +167,7 @@ func indexLoad(elems []value, idx value) value {
 	return selectElem(elems, it)
 }
 
-const maxAlloc = 1 << 26 // elements; larger symbolic allocations are reported, not executed
+const maxAlloc = 1 << 22 // elements; larger symbolic allocations are reported, not executed
 
 func makeSlice(instr *ssa.MakeSlice, ln, cp value) value {
 	lt, ct := idx64(ln), idx64(cp)
